@@ -166,14 +166,16 @@ def aggregate(records):
     digests = set()
     keys = set()
     steps = 0
+    extra = 0
     for r in records:
+        extra += r.get("distinct_extra", 0)
         for k, n in r.get("stats", {}).items():
             stats[k] = stats.get(k, 0) + n
         digests.add(r["digest"])
         for k in (r.get("keys") or ([r["key"]] if r.get("key") else [])):
             keys.add(k)
         steps += r.get("steps", 0)
-    return stats, digests, keys, steps
+    return stats, digests, keys, steps, extra
 
 
 def main_check(prop, tier, seed, runs_override=None, workers=None):
@@ -185,7 +187,7 @@ def main_check(prop, tier, seed, runs_override=None, workers=None):
     records = run_workers(prop, seed, tier, runs, plan["timeout_s"], workers)
     if hasattr(mod, "extra_main"):
         records += mod.extra_main(seed, tier)
-    stats, digests, keys, steps = aggregate(records)
+    stats, digests, keys, steps, extra = aggregate(records)
 
     known = load_known(prop)
     by_class = {}
@@ -234,7 +236,7 @@ def main_check(prop, tier, seed, runs_override=None, workers=None):
     samples = [r["sample"] for r in records if r.get("sample") is not None][:5]
     cov = {
         "evaluations": int(stats.get("evaluations", len(records))),
-        "distinct_nontrivial": len(keys),
+        "distinct_nontrivial": len(keys) + extra,
         "rule": desc["rule"],
         "samples": samples or [{"note": "no sample recorded"}],
         "runs": len(records),
@@ -259,7 +261,7 @@ def main_check(prop, tier, seed, runs_override=None, workers=None):
     os.makedirs(os.path.join(kernel.VERIF_DIR, "evidence"), exist_ok=True)
     with open(os.path.join(kernel.VERIF_DIR, "evidence", f"{prop}.json"), "w") as f:
         json.dump(ev, f, indent=1, sort_keys=True, default=repr)
-    print(f"[{prop}] runs={len(records)} evaluations={cov['evaluations']} distinct_nontrivial={len(keys)} "
+    print(f"[{prop}] runs={len(records)} evaluations={cov['evaluations']} distinct_nontrivial={len(keys) + extra} "
           f"digests={len(digests)} known={len(known_hits)} new={len(reported)} wall={wall:.1f}s", flush=True)
     return exit_code
 
